@@ -96,16 +96,22 @@ func (r *Runner) trial(b Batch, plan proxy.Plan, kind string, leaves []Q, o Faul
 	sh.VerifSetDB(px)
 	px.SetPlan(plan)
 	if kind != "count" {
-		r.TW.Emit("Fault", M{"kind": kind, "k": plan.FailAt, "commit": b2i(plan.FailCommit)})
+		r.TW.Emit("Fault", M{"kind": kind, "k": plan.FailAt, "commit": b2i(plan.FailCommit || plan.PanicCommit)})
 	}
+	// (a panic on the goroutine that runs the write transaction is caught where a request handler would
+	// catch it; what the instance keeps in memory after that is not judged: the file is reopened)
+	r.CatchPanic, r.Panicked = plan.PanicCommit, false
 	r.Apply(b)
+	r.CatchPanic = false
 	ops = px.Ops.Load()
 	px.SetPlan(proxy.Plan{})
 	// warm: the same instance, caches as the failure left them
-	r.observeAll(leaves, o)
+	if !r.Panicked {
+		r.observeAll(leaves, o)
+	}
 	// the next request on the same instance: nothing a failed batch left in memory (allocators, counters,
 	// caches) may leak into it
-	if kind != "count" && !o.BigInsert {
+	if kind != "count" && !o.BigInsert && !r.Panicked {
 		inBatch := map[int]bool{}
 		for _, p := range b.Pts {
 			inBatch[p.ID] = true
@@ -356,6 +362,9 @@ func (r *Runner) RunFaultHistory(histNo int, o FaultOpts) error {
 			}
 		}
 		if _, err := r.trial(batch, proxy.Plan{FailCommit: true}, "failcommit", leaves, o); err != nil {
+			return err
+		}
+		if _, err := r.trial(batch, proxy.Plan{PanicCommit: true}, "paniccommit", leaves, o); err != nil {
 			return err
 		}
 		if o.Exe != "" {
